@@ -90,6 +90,28 @@ pub fn seed_bytes(len: usize, word_bits: u32, anchors: Vec<Vec<u8>>, allow_zero:
         b[i] = v;
         Seed { class: "onebyte".into(), bytes: b }
     });
+    // relational words: every word is derived from one base word (equal, complement, negation,
+    // disjoint bits, off by one) — the shapes on which guards like `a ^ b == 0`, `a + b == 0`,
+    // `a & b == 0` or "all words equal" fire
+    let relational = (special_word(word_bits), vec((0u8..10, any::<u64>()), nwords)).prop_map(move |(w, sel)| {
+        let max = if word_bits == 32 { u32::MAX as u64 } else { u64::MAX };
+        let mut b = Vec::with_capacity(len);
+        for (k, x) in sel {
+            let v = match k {
+                0 | 1 => w,
+                2 => !w,
+                3 => w.wrapping_neg(),
+                4 => 0,
+                5 => x & !w,
+                6 => w ^ 1,
+                7 => max,
+                8 => w.rotate_left(1),
+                _ => x,
+            } & max;
+            b.extend_from_slice(&v.to_le_bytes()[..wb]);
+        }
+        Seed { class: "relational".into(), bytes: b }
+    });
     let anchor = if anchors.is_empty() {
         Just(Seed { class: "uniform".into(), bytes: vec![0x5a; len] }).boxed()
     } else {
@@ -97,9 +119,9 @@ pub fn seed_bytes(len: usize, word_bits: u32, anchors: Vec<Vec<u8>>, allow_zero:
     };
     let zero = Just(Seed { class: "zero".into(), bytes: vec![0u8; len] });
     let s = if allow_zero {
-        prop_oneof![8 => uniform, 3 => sparse, 2 => dense, 5 => words, 2 => onebyte, 1 => anchor, 2 => zero].boxed()
+        prop_oneof![8 => uniform, 3 => sparse, 2 => dense, 5 => words, 3 => relational, 2 => onebyte, 1 => anchor, 2 => zero].boxed()
     } else {
-        prop_oneof![8 => uniform, 3 => sparse, 2 => dense, 5 => words, 2 => onebyte, 1 => anchor].boxed()
+        prop_oneof![8 => uniform, 3 => sparse, 2 => dense, 5 => words, 3 => relational, 2 => onebyte, 1 => anchor].boxed()
     };
     if allow_zero {
         s
@@ -116,9 +138,97 @@ pub fn seed_bytes(len: usize, word_bits: u32, anchors: Vec<Vec<u8>>, allow_zero:
     }
 }
 
+/// structured states meant as *targets* (successor states, jump targets): the preimage
+/// sub-checks pull them back through the inverse linear map, so that special cases keyed on the
+/// result of a step or jump are reached as well
+pub fn target_state(ty: Ty) -> BoxedStrategy<Seed> {
+    let info = ty.info();
+    let (len, wb) = (info.seed_len, (info.word / 8) as usize);
+    let n = len / wb;
+    let max = if info.word == 32 { u32::MAX as u64 } else { u64::MAX };
+    let small = (vec(prop_oneof![3 => Just(0u64), 2 => 1u64..=16, 1 => any::<u64>()], n)).prop_map(move |ws| {
+        let mut b = Vec::with_capacity(len);
+        for w in ws {
+            b.extend_from_slice(&(w & max).to_le_bytes()[..wb]);
+        }
+        Seed { class: "target-small-words".into(), bytes: b }
+    });
+    let konst = special_word(info.word).prop_map(move |w| {
+        let mut b = Vec::with_capacity(len);
+        for _ in 0..n {
+            b.extend_from_slice(&w.to_le_bytes()[..wb]);
+        }
+        Seed { class: "target-constant-words".into(), bytes: b }
+    });
+    prop_oneof![4 => seed_bytes(len, info.word, Vec::new(), false), 3 => small, 1 => konst]
+        .prop_map(|mut s| {
+            if s.is_zero() {
+                s.bytes[0] = 1;
+            }
+            s
+        })
+        .boxed()
+}
+
+fn inv_mul(a: u64) -> u64 {
+    let mut x = a;
+    for _ in 0..6 {
+        x = x.wrapping_mul(2u64.wrapping_sub(a.wrapping_mul(x)));
+    }
+    x
+}
+fn unxorshift(v: u64, s: u32) -> u64 {
+    let mut y = v;
+    let mut k = s;
+    while k < 64 {
+        y ^= y >> k;
+        k *= 2;
+    }
+    y
+}
+
+/// SplitMix64 counters worth visiting: a counter wrap / special counter value reached after a
+/// few steps, and counters whose value after an internal stage of the two reference finalisers
+/// (splitmix64.c's mix and dsiutils' Mix4) is structured (zero, below 2^32, high half only, all
+/// ones, a single bit) — pulled back through the reference's invertible stages
+pub fn splitmix_seed() -> BoxedStrategy<Seed> {
+    const PHI: u64 = 0x9e3779b97f4a7c15;
+    let structured = prop_oneof![
+        2 => Just(0u64),
+        3 => any::<u32>().prop_map(|v| v as u64),
+        2 => any::<u32>().prop_map(|v| (v as u64) << 32),
+        1 => Just(u64::MAX),
+        2 => (0u32..64).prop_map(|k| 1u64 << k),
+        1 => Just(0xffff_ffffu64),
+        1 => Just(1u64 << 63),
+    ];
+    (structured, 0u8..6, 0u64..=12)
+        .prop_map(|(v, stage, k)| {
+            let counter = match stage {
+                0 => v,
+                // splitmix64.c: z = (z ^ z>>30)*C1; z = (z ^ z>>27)*C2; out = z ^ z>>31
+                1 => unxorshift(v.wrapping_mul(inv_mul(0xbf58476d1ce4e5b9)), 30),
+                2 => unxorshift(unxorshift(v.wrapping_mul(inv_mul(0x94d049bb133111eb)), 27).wrapping_mul(inv_mul(0xbf58476d1ce4e5b9)), 30),
+                3 => unxorshift(unxorshift(unxorshift(v, 31).wrapping_mul(inv_mul(0x94d049bb133111eb)), 27).wrapping_mul(inv_mul(0xbf58476d1ce4e5b9)), 30),
+                // Mix4: z = (z ^ z>>33)*D1; z = (z ^ z>>28)*D2; out = z>>32
+                4 => unxorshift(v.wrapping_mul(inv_mul(0x62A9D9ED799705F5)), 33),
+                _ => unxorshift(unxorshift(v.wrapping_mul(inv_mul(0xCB24D0A5C88C35B3)), 28).wrapping_mul(inv_mul(0x62A9D9ED799705F5)), 33),
+            };
+            // the counter is reached at step k+1
+            let seed = counter.wrapping_sub(PHI.wrapping_mul(k + 1));
+            Seed { class: "splitmix-stage".into(), bytes: seed.to_le_bytes().to_vec() }
+        })
+        .boxed()
+}
+
 pub fn seed_for(ty: Ty, allow_zero: bool) -> BoxedStrategy<Seed> {
     let info = ty.info();
-    seed_bytes(info.seed_len, info.word, anchor_seeds(ty), allow_zero)
+    let base = seed_bytes(info.seed_len, info.word, anchor_seeds(ty), allow_zero);
+    if ty == Ty::SplitMix64 {
+        prop_oneof![3 => base, 1 => splitmix_seed()].boxed()
+    } else {
+        base
+    }
 }
 
 
